@@ -105,7 +105,8 @@ skip_array(const uint8_t * buf, const uint8_t * end)
 
 	/* Skip entries until we get to the end. */
 	do {
-		/* Skip a value. */
+		/* Skip optional whitespace and a value. */
+		buf = skip_ws(buf, end);
 		buf = skip_value(buf, end);
 
 		/* Skip optional whitespace. */
@@ -142,6 +143,11 @@ skip_object(const uint8_t * buf, const uint8_t * end)
 
 	/* Skip entries until we get to the end. */
 	do {
+		/* Skip optional whitespace; we should have a string next. */
+		buf = skip_ws(buf, end);
+		if (buf == end)
+			return (end);
+
 		/* Skip a string and optional whitespace. */
 		buf = skip_string(buf, end);
 		buf = skip_ws(buf, end);
